@@ -564,6 +564,11 @@ CompletedFromQueued(qkey, p) ==
     /\ OpInQueue(S, o, qkey) /\ PathPrefix(p, o.inv)
     /\ TaskOf(S, o.task).stage = "Q" /\ o.task \in NewlyCompleted
 LastStartedChecks == <<
+    \* "then oldest": the age of a task counts from the section that created it
+    \* (a background learning run inherits the time of its foreground task)
+    <<(\A id \in NewTasks : (Call.kind = "execute" /\ (~TaskOf(Post, id).dnc \/ Call.dnc)) => TaskOf(Post, id).queued_at = Post.now)
+        /\ (\A id \in Both(S, Post) : TaskOf(Post, id).queued_at = TaskOf(S, id).queued_at),
+      "C04:queued-timestamp-is-not-the-creation-time-of-the-task">>,
     <<\A qi \in QIdx(Post) : \A i \in Rng(Post.queues[qi].invs) :
         \* (the root has no siblings; the hook does not export its times)
         (i.path # <<>> /\ StartedNow(QueueKey(Post.queues[qi]), i.path)) => i.last_started = Post.now,
